@@ -196,6 +196,11 @@ def step(toks, ann):
             return 'ok ' + hx(H.encode_integer(int(toks[1]), int(toks[2])))
         except Exception as e:
             return canon(e)
+    if op == 'ienchex':       # the integer as big-endian hex octets (no decimal conversion anywhere in the harness)
+        try:
+            return 'ok ' + hx(H.encode_integer(int.from_bytes(unhex(toks[1]), 'big'), int(toks[2])))
+        except Exception as e:
+            return canon(e)
     if op == 'idec':
         try:
             data = unhex(toks[1])
